@@ -48,6 +48,7 @@ class ExprPolicy:
         self.opt_pins = []                  # [(compiled uid regex, [0|1,...])]
         self.import_callee = False
         self.free_strings = None
+        self.concrete_enums = ()
         self.op_budget = op_budget          # max number of non-leaf expression nodes in the whole input (None = unbounded)
         self.budget_kinds = set(budget_kinds)
         self.levels = levels
@@ -80,6 +81,7 @@ class ExprPolicy:
             'make': self.make,
             'spans': self.spans,
             'bools': {},
+            'concrete_enums': getattr(self, 'concrete_enums', ()),
         }
 
     # ---------------------------------------------------------------- variants
@@ -429,6 +431,9 @@ class ExprGrammar(Grammar):
             m = re.match(r'^(.*)\.left$', uid)
             if vn == 'Pat' and m and ('e!' + m.group(1) + '.op') in ctx.vars:
                 ctx.add(ctx.vars['e!' + m.group(1) + '.op'] == 0)
+            elif vn == 'Pat' and m and ctx.decisions.get('enum:' + m.group(1) + '.op', 0) != 0:
+                from interp import Infeasible
+                raise Infeasible('destructuring target with a compound assignment operator')
 
 
 def materialise_input(g, root_ty, root_uid, depth=0, role=None):
